@@ -44,7 +44,8 @@ def decorate(rows, tpl, tag):
     if tpl == 'plain':
         return lines
     if tpl == 'comment':
-        return ['%s ; %s note %d' % (ln, tag, i) for i, ln in enumerate(lines)]
+        # (the comment text holds braces - a set of atom numbers, an empty pair, a lone one)
+        return ['%s ; %s note %d {2,3,4,5} {} }' % (ln, tag, i) for i, ln in enumerate(lines)]
     if tpl == 'empty':
         return [ln + ' ;' for ln in lines]
     if tpl in ('empty2', 'empty3', 'emptysp'):
@@ -56,7 +57,10 @@ def decorate(rows, tpl, tag):
         return ['%s ; %s a%d ; b%d' % (ln, tag, i, i) for i, ln in enumerate(lines)]
     if tpl == 'line':
         # whole-line comments, two of them ending in a backslash (a path, an ASCII drawing): comments all the same
-        return ['; columns of ' + tag, ';   /  \\', lines[0], ';%s between, see D:\\top\\' % tag] + lines[1:]
+        # ... and one holding characters that str.splitlines treats as line boundaries (form feed, U+2028, NEL) while a
+        # text file does not
+        return ['; columns of ' + tag + ' table 7\x0ctable 8\u2028part\x85b', ';   /  \\', lines[0],
+                ';%s between, see D:\\top\\' % tag] + lines[1:]
     if tpl == 'blank':
         return ['', lines[0], '   '] + lines[1:]
     if tpl == 'ifdef':
